@@ -13,6 +13,7 @@ import (
 	"encoding/hex"
 	"errors"
 	"fmt"
+	"sort"
 	"strings"
 
 	"github.com/btcsuite/btcd/btcec"
@@ -184,8 +185,56 @@ func runKeys(w *World, p map[string]int, prop string) {
 			w.Violate(prop+".use-failed", "UseWallet(%s) on %s: %v", ws.ID, inst.Name, err)
 			return false
 		}
+		// internal-branch (change) addresses: a restore with an internal index
+		// hint derives them; they must be the key chain's internal addresses
+		// at every index, and sign with the keys they commit to
+		type target struct {
+			a     *HDAddr
+			label string
+		}
+		var targets []target
 		for _, ia := range ws.Issued {
-			a := ws.HD.Addr(ia.Index)
+			targets = append(targets, target{ws.HD.Addr(ia.Index), fmt.Sprintf("issued address index %d", ia.Index)})
+		}
+		var internals []target
+		if am, aerr := inst.WM.SimKeystoreManager().GetAddrManagerByAccountID(ws.ID); aerr == nil && am != nil {
+			var got []string
+			for _, ma := range am.ManagedAddresses() {
+				if ma.IsChangeAddr() {
+					got = append(got, ma.String())
+				}
+			}
+			sort.Strings(got)
+			if uint32(len(got)) < ws.InternalN {
+				w.Violate(prop+".address-derivation", "instance %s wallet %s: restored with internal index %d but holds %d internal addresses", inst.Name, ws.ID, ws.InternalN, len(got))
+				return false
+			}
+			var want []string
+			for i := 0; i < len(got); i++ {
+				a := ws.HD.addr(uint32(i), true)
+				var h [32]byte
+				copy(h[:], a.ScriptHash)
+				want = append(want, w.Gen.addrString(h))
+				internals = append(internals, target{a, fmt.Sprintf("internal address index %d", i)})
+			}
+			sort.Strings(want)
+			if strings.Join(got, ",") != strings.Join(want, ",") {
+				w.Violate(prop+".address-derivation", "instance %s wallet %s: its %d internal-branch addresses are not the key chain's internal addresses 0..%d: got %v want %v", inst.Name, ws.ID, len(got), len(got)-1, got, want)
+				return false
+			}
+			if len(got) > 0 {
+				w.Stat("check.internal_addresses_match_derivation")
+			}
+		}
+		// which key is asked for first after an unlock boundary matters (lazy
+		// private derivation): internal first in half of the cases
+		if t.Bool(50) {
+			targets = append(internals, targets...)
+		} else {
+			targets = append(targets, internals...)
+		}
+		for _, tg := range targets {
+			a := tg.a
 			pub, perr := btcec.ParsePubKey(a.PubKey, btcec.S256())
 			if perr != nil {
 				continue
@@ -197,14 +246,17 @@ func runKeys(w *World, p map[string]int, prop string) {
 				return false
 			}
 			if err != nil {
-				w.Violate(prop+".sign-failed", "instance %s wallet %s: SignHash for issued address index %d failed with the right passphrase: %v", inst.Name, ws.ID, ia.Index, err)
+				w.Violate(prop+".sign-failed", "instance %s wallet %s: SignHash for %s failed with the right passphrase: %v", inst.Name, ws.ID, tg.label, err)
 				return false
 			}
 			if !sig.Verify(digest[:], pub) {
-				w.Violate(prop+".key-mismatch", "instance %s wallet %s: the signature for address index %d does not verify under the public key the address commits to", inst.Name, ws.ID, ia.Index)
+				w.Violate(prop+".key-mismatch", "instance %s wallet %s: the signature for %s does not verify under the public key the address commits to", inst.Name, ws.ID, tg.label)
 				return false
 			}
 			w.Stat("check.key_matches_address")
+			if a.Internal {
+				w.Stat("check.internal_key_matches_address")
+			}
 		}
 		// the address list equals the derivation at every index
 		got, err := inst.Observe(ws.ID)
@@ -312,7 +364,11 @@ func runKeys(w *World, p map[string]int, prop string) {
 			}
 			src := longest(kw, insts)
 			hint := uint32(len(src.Issued))
-			nw, err := other.ImportMnemonic(src, hint, true)
+			intHint := uint32(0)
+			if t.Bool(45) {
+				intHint = uint32(1 + t.Int(4))
+			}
+			nw, err := other.ImportMnemonicIdx(src, hint, intHint, true)
 			if err != nil {
 				w.Violate(prop+".import-failed", "ImportWalletWithMnemonic: %v", err)
 				break
